@@ -75,11 +75,18 @@ func oracleC05(x *Exec, r *StepRec) {
 	x.stats.inc("c05_ok_" + m.T)
 	switch m.T {
 	case "update", "disable", "enable", "refund":
-		b, ok := pre.Bindings[bkey(m.Svc, resolveAddr(m.Prov))]
+		bk := bkey(m.Svc, resolveAddr(m.Prov))
+		b, ok := pre.Bindings[bk]
 		if !ok {
 			bad("binding does not exist")
-		} else if !bytes.Equal(b.Owner, signer) {
-			bad("signer is not the owner of the binding")
+		} else {
+			owner := []byte(b.Owner)
+			if bi := x.tr.Binds[bk]; bi != nil {
+				owner = bi.Owner // the owner the binding was created with (ledger), not whatever is stored now
+			}
+			if !bytes.Equal(owner, signer) {
+				bad("signer is not the owner of the binding")
+			}
 		}
 	case "withdraw":
 		if m.Prov != "" {
